@@ -198,7 +198,73 @@ def case_real(idx, rng, tier, res):
         shutil.rmtree(d, ignore_errors=True)
 
 
+def case_real_compile(idx, rng, tier, res):
+    """part B2: the real compiler with real file borrowers and the real file writers (byte-compilation
+    as the writer is constructed): a module no source can deliver is borrowed from a directory - the
+    stored file is the borrowed copy verbatim, whatever that copy looks like to today's interpreter"""
+    from pysmi.compiler import MibCompiler
+    from pysmi.reader import FileReader
+    from pysmi.reader.callback import CallbackReader
+    from pysmi.searcher.stub import StubSearcher
+    from pysmi.borrower import AnyFileBorrower, PyFileBorrower
+    from pysmi.writer import FileWriter, PyFileWriter
+    from vlib import pipeline
+    d = tempfile.mkdtemp(prefix='verif-c19c-', dir=env.scratch_root())
+    try:
+        fmt = rng.choice(['pysnmp', 'pysnmp', 'json'])
+        ext = '.py' if fmt == 'pysnmp' else '.json'
+        bor, dst = os.path.join(d, 'bor'), os.path.join(d, 'dst')
+        os.makedirs(bor)
+        flavour = rng.random() < 0.5
+        body = rng.choice([
+            '# a module compiled long ago\nprint \'loaded\'\nx = 0777L\n',          # Python 2 only
+            '# plain\nx = 1\n', 'def broken(:\n', u'# caf\xe9 \u4e16\n', '', '\x00\x01 not text at all',
+            '{"not": "python"}\n'])
+        with open(os.path.join(bor, 'AA-MIB' + ext), 'w', encoding='utf-8') as f:
+            f.write(body)
+        texts = dict(pipeline.fixtures())
+        how = rng.choice(['absent', 'synerr', 'untyped', 'oidloop'])
+        if how != 'absent':
+            texts['AA-MIB'] = orch.module_text('AA-MIB', [], 's0', how)
+        texts['BB-MIB'] = orch.module_text('BB-MIB', [], 's0', 'ok')
+        writer = PyFileWriter(dst) if fmt == 'pysnmp' else FileWriter(dst).setOptions(suffix='.json')
+        comp = MibCompiler(pipeline.make_parser('smiV1Relaxed'), pipeline.make_codegen(fmt), writer)
+        comp.addSources(CallbackReader(lambda n, c: texts.get(n)))
+        comp.addSearchers(StubSearcher(*pipeline.BASE_STUBS))
+        rd = FileReader(bor).setOptions(lowcaseMatching=False)
+        comp.addBorrowers(PyFileBorrower(rd, genTexts=flavour) if fmt == 'pysnmp'
+                          else AnyFileBorrower(rd, genTexts=flavour).setOptions(exts=['.json']))
+        cell = {'format': fmt, 'defect': how, 'borrowed_text': body[:40], 'flavour': flavour}
+        try:
+            r = comp.compile('AA-MIB', 'BB-MIB', genTexts=flavour, ignoreErrors=rng.random() < 0.5)
+        except Exception as exc:
+            res.violation('real_compile_raised', '%r raised %r' % (cell, exc), replay=cell)
+            return
+        res.count('real_compile_borrows')
+        try:
+            with open(os.path.join(dst, 'AA-MIB' + ext), encoding='utf-8') as f:
+                onfile = f.read()
+        except OSError:
+            onfile = None
+        if r.get('AA-MIB') != 'borrowed':
+            res.violation('real_not_borrowed', '%r: AA-MIB is %r (%s)' % (cell, str(r.get('AA-MIB')),
+                                                                          getattr(r.get('AA-MIB'), 'error', None)), replay=cell)
+        elif onfile != body:
+            res.violation('real_borrowed_not_verbatim', '%r: stored %r' % (cell, None if onfile is None else onfile[:60]),
+                          replay=cell)
+        if r.get('BB-MIB') != 'compiled':
+            res.violation('real_neighbour_blocked', '%r: BB-MIB is %r although AA-MIB could be borrowed' % (
+                cell, str(r.get('BB-MIB'))), replay=cell)
+        res.cell('B2:%s:%s' % (fmt, how))
+        res.sig = harness.stable_hash(cell)
+        res.nontrivial = True
+    finally:
+        shutil.rmtree(d, ignore_errors=True)
+
+
 def run_case(idx, rng, tier, res):
+    if idx % 25 == 14:
+        return case_real_compile(idx, rng, tier, res)
     if idx % 5 == 4:
         case_real(idx, rng, tier, res)
     else:
